@@ -358,8 +358,15 @@ func writeDefinitions(w *formatting.IndentedWriter, ns *dsl.Namespace, symbolTab
 
 					fmt.Fprintf(w, "if (!%s(values)) {\n", common.ProtocolReadImplMethodName(step))
 					w.Indented(func() {
-						fmt.Fprintf(w, "state_ = %d;\n", 2*i+1)
-						w.WriteStringln("return values.size() > 0;")
+						// the end of the stream has only been observed by the caller if nothing was returned
+						w.WriteStringln("if (values.size() > 0) {")
+						w.Indented(func() {
+							fmt.Fprintf(w, "state_ = %d;\n", 2*i+1)
+							w.WriteStringln("return true;")
+						})
+						w.WriteStringln("}")
+						fmt.Fprintf(w, "state_ = %d;\n", 2*i+2)
+						w.WriteStringln("return false;")
 					})
 					w.WriteStringln("}")
 					w.WriteStringln("return true;")
